@@ -267,3 +267,22 @@ def where_of(ev, p):
         except Exception:
             pass
     return ",".join(tags) or "-"
+
+
+def known_region(ev, p):
+    """-> predicate on a valuation (ctrl, layouts, cfg0) that is true where a recorded known finding of this
+    event is triggered BY THE INPUT (not by the structure of the event), or None.  The oracles keep scanning
+    the valuations outside that region, so a different defect of the same primitive is still reported."""
+    if ev["op"] == "divide_with_recompute":
+        a = ev.get("a", [])
+        if len(a) >= 2:
+            src = str(a[1]).replace("/", "//")
+
+            def pred(val):
+                try:
+                    return eval(src, {"__builtins__": {}}, dict(val[0])) <= 0
+                except Exception:
+                    return False
+
+            return pred
+    return None
